@@ -164,6 +164,17 @@ template <> struct c06v<amgcl::static_matrix<double,2,2> > { static const char* 
 template <class V, class M, class BP, class F> static typename std::enable_if<(amgcl::math::static_rows<V>::value == 1)>::type spai1_fixed_point(const M &A, const BP &bp, F &fp) { typedef amgcl::backend::builtin<V> VB; rx::spai1<VB> s(A, typename rx::spai1<VB>::params(), bp); fp(s); }
 template <class V, class M, class BP, class F> static typename std::enable_if<(amgcl::math::static_rows<V>::value > 1)>::type spai1_fixed_point(const M &, const BP &, F &) {}
 
+// complex SPAI-1: every row of M minimises ||e_i - m_i A|| over the pattern of row i of A: (M A - I) A^H vanishes on the pattern
+template <class V, class M, class BP, class S> static typename std::enable_if<amgcl::is_complex<V>::value>::type spai1_normal_equations(const M &A, const BP &bp, long n, Result &res, S &sig) {
+    if (n > 40) return; typedef amgcl::backend::builtin<V> VB; rx::spai1<VB> s(A, typename rx::spai1<VB>::params(), bp);
+    Eigen::MatrixXcd Mm(n, n), D = Eigen::MatrixXcd::Zero(n, n); std::vector<V> e(n), x(n);
+    for (long j = 0; j < n; ++j) { for (long i = 0; i < n; ++i) e[i] = V(0, 0); e[j] = V(1, 0); s.apply(A, e, x); for (long i = 0; i < n; ++i) Mm(i, j) = x[i]; }
+    for (long i = 0; i < n; ++i) for (ptrdiff_t j = A.ptr[i]; j < A.ptr[i+1]; ++j) D(i, A.col[j]) += A.val[j];
+    Eigen::MatrixXcd G = (Mm * D - Eigen::MatrixXcd::Identity(n, n)) * D.adjoint(); double sc = D.cwiseAbs().maxCoeff(); sc = sc * sc;
+    for (long i = 0; i < n; ++i) for (ptrdiff_t j = A.ptr[i]; j < A.ptr[i+1]; ++j) if (!(std::abs(G(i, A.col[j])) <= 1e-9 * sc * (1 + Mm.row(i).cwiseAbs().maxCoeff()))) { res.fail(sig("definition", "valued least-squares-normal-equations", fmt("row %ld, pattern column %ld: gradient %.3g", i, (long)A.col[j], std::abs(G(i, A.col[j]))))); return; }
+    res.counts["complex_spai1_normal_equations"]++; }
+template <class V, class M, class BP, class S> static typename std::enable_if<!amgcl::is_complex<V>::value>::type spai1_normal_equations(const M &, const BP &, long, Result &, S &) {}
+
 template <class V>
 static void valued_smoothers(const Plan &p, Result &res) {
     namespace m = amgcl::math;
@@ -193,7 +204,7 @@ static void valued_smoothers(const Plan &p, Result &res) {
             double d = dist(a, w); if (!(d <= 1e-11 * (1 + vmax(w)))) res.fail(sig("definition", pre ? "valued forward-triangular-solve" : "valued backward-triangular-solve", fmt("difference from the definition %.3g", d))); }
         if (!q.is_serial) res.counts["gs_parallel_path"]++; break; }
     case R_SPAI0: { rx::spai0<VB> s(*A, typename rx::spai0<VB>::params(), bp); fixed_point(s); break; }
-    case R_SPAI1: { spai1_fixed_point<V>(*A, bp, fixed_point); break; }      // (SPAI-1 is not available for block values)
+    case R_SPAI1: { spai1_fixed_point<V>(*A, bp, fixed_point); spai1_normal_equations<V>(*A, bp, n, res, sig); break; }      // (SPAI-1 is not available for block values)
     case R_CHEB: { typedef rx::chebyshev<VB> R; typename R::params pr; pr.degree = (unsigned)p.get("degree"); pr.scale = p.get("cheb_scale") != 0; R s(*A, pr, bp); fixed_point(s); break; }
     case R_ILU0: { typedef rx::ilu0<VB> R; typename R::params ps, pp; ps.solve.serial = true; pp.solve.serial = false; R s(*A, ps, bp), q(*A, pp, bp); fixed_point(q);
         std::vector<RV> a = x0, b = x0; s.apply_pre(*A, f, a, tmp); q.apply_pre(*A, f, b, tmp); double d = dist(a, b); if (!(d <= 1e-10 * (1 + vmax(a)))) res.fail(sig("parallel-equals-serial", "valued level-scheduled-triangular-solve", fmt("max difference %.3g", d))); break; }
